@@ -163,7 +163,7 @@ pub fn run(ctx: &Ctx) -> Report
          successful build, at least one in-scope rule resolved without running its command; distinct by hash of the generated case");
     rep.assume("commands are deterministic functions of their declared sources (harness command language)");
     rep.assume("any two distinct file writes carry distinct modification times (Distinct clock)");
-    let (cases, max_rules, max_ops) = ctx.tier.pick((1500u32, 6usize, 12usize), (30000, 12, 40));
+    let (cases, max_rules, max_ops) = ctx.tier.pick((15000u32, 6usize, 16usize), (200000, 12, 40));
     rep.absorb(drive::drive(ctx, 1, cases, || strategy(max_rules, max_ops), test_case));
     rep
 }
